@@ -16,6 +16,7 @@ import (
 	"github.com/rs/zerolog"
 
 	"verif/harness/internal/core"
+	"verif/harness/internal/gen"
 	"verif/harness/internal/mon"
 )
 
@@ -101,6 +102,37 @@ func (e *C15) Run(c *core.Ctx, idx int) {
 	p := e.pop
 	data, desc, fi := relInput(c, p, idx)
 	r := c.Rng(idx, 15)
+	if idx%9 == 4 {
+		// a CR3 whose first directory holds a text value longer than the 4 KiB look-ahead window:
+		// the Exif reader then meets a full buffer on a reader that is a box, not a bufio.Reader
+		rec := gen.GenExifRec(r, gen.RecOpts{})
+		keep := rec.IFD0.Entries[:0]
+		for _, en := range rec.IFD0.Entries {
+			if en.Tag != 0x010e {
+				keep = append(keep, en)
+			}
+		}
+		rec.IFD0.Entries = keep
+		rec.IFD0.Add(0x010e, gen.ASCII(gen.XText(r, r.Pick(4090, 4097, 5000, 9000))))
+		rec.IFD0.Sort()
+		t := gen.BuildTIFF(rec.IFD0, gen.Layout{Big: r.Bool(), FirstOff: 8, MaxPad: r.Pick(0, 3), R: r, MinLen: 32}).Bytes
+		cr := gen.BuildCR3(r, gen.CR3Parts{CMT1: t, Preview: append([]byte{0xFF, 0xD8}, r.Bytes(r.Range(100, 3000))...), PrvwW: 160, PrvwH: 120}, 0, false)
+		data, desc, fi = cr.Bytes, fmt.Sprintf("cr3 long-text len=%d", len(cr.Bytes)), -2
+	}
+	// a sixth of the cases read from a source that fails (a non-EOF error, an unexpected EOF, a
+	// failing Seek) at a drawn position: error paths log, and must log to the configured sink only
+	fault, cut := -1, 0
+	if idx%6 == 1 && len(data) > 0 {
+		fault, cut = r.Pick(2, 2, 3, 4), r.Intn(len(data))
+		desc += fmt.Sprintf(" reader-fault=%d@%d", fault, cut)
+	}
+	mkRS := func() *mon.RS {
+		rs := mon.NewRS(data)
+		if fault >= 0 {
+			readerKind(rs, fault, cut)
+		}
+		return rs
+	}
 	nat := natEntries(p, fi, data)
 	for _, ei := range nat {
 		ent := p.entries[ei]
@@ -110,7 +142,7 @@ func (e *C15) Run(c *core.Ctx, idx int) {
 		_ = os.Stdout.Sync()
 		o1, e1 := fdSize(1), fdSize(2)
 		var ref string
-		pk, _, _ := core.Guard(func() { ref = ent.Run(mon.NewRS(data)) })
+		pk, _, _ := core.Guard(func() { ref = ent.Run(mkRS()) })
 		o2, e2 := fdSize(1), fdSize(2)
 		c.Rec.Eval(1)
 		if o2 != o1 || e2 != e1 {
@@ -147,7 +179,7 @@ func (e *C15) Run(c *core.Ctx, idx int) {
 			what := fmt.Sprintf("level=%s writer=%d console=%v twice=%v", lvl.String(), w.mode, wrap, twice)
 			c.SetPhase("entry=" + ent.Name + " " + what + " " + desc)
 			var got string
-			pk, key, text := core.Guard(func() { got = ent.Run(mon.NewRS(data)) })
+			pk, key, text := core.Guard(func() { got = ent.Run(mkRS()) })
 			restoreDefaults()
 			c.Rec.Eval(1)
 			if pk {
